@@ -427,6 +427,15 @@ func runC12(c *Ctx) {
 			// framing that differs from '<hex size>;chunk-signature=<64 hex>CRLF<data>CRLF' without shifting anything
 			mal("crlf-after-data-replaced", []byte(strings.Replace(string(good), string(payload[:24])+"\r\n", string(payload[:24])+"XY", 1)), len(payload), "first chunk", "reject")
 			mal("crlf-after-header-replaced", rep1("cdef\r\n", "cdefXY"), len(payload), "first header", "reject")
+			// malformations after which the rest of the stream would parse again if the decoder carried on:
+			// each must end the upload all the same
+			first := string(payload[:24])
+			mal("two-bytes-between-data-and-crlf", []byte(strings.Replace(string(good), first+"\r\n", first+"XY\r\n", 1)), len(payload), "first chunk", "reject")
+			mal("junk-line-between-chunks", []byte(strings.Replace(string(good), first+"\r\n", first+"\r\nZ\r\n", 1)), len(payload), "after first chunk", "reject")
+			mal("two-junk-bytes-between-chunks", []byte(strings.Replace(string(good), first+"\r\n", first+"\r\nZZ", 1)), len(payload), "after first chunk", "reject")
+			mal("extra-crlf-between-chunks", []byte(strings.Replace(string(good), first+"\r\n", first+"\r\n\r\n", 1)), len(payload), "after first chunk", "reject")
+			mal("bad-signature-header-then-the-header-again", append([]byte("18;chunk-signature="+strings.Repeat("g", 64)+"\r\n"), good...), len(payload), "first header", "reject")
+			mal("bad-size-line-then-the-stream", append([]byte("zz\r\n"), good...), len(payload), "first header", "reject")
 			mal("extension-not-chunk-signature", rep1(";chunk-signature=", ";chunk-sXgnature="), len(payload), "first header", "reject")
 			mal("plus-signed-size", rep1("18;", "+18;"), len(payload), "first header", "reject")
 			mal("space-padded-size", rep1("18;", " 18;"), len(payload), "first header", "reject")
